@@ -12,6 +12,7 @@ import (
 	"go/constant"
 	"go/token"
 	"go/types"
+	"sort"
 	"strings"
 
 	"golang.org/x/tools/go/packages"
@@ -368,5 +369,77 @@ func checkCountAccessors(r *Run, p *packages.Package) {
 	}
 	if n == 0 {
 		r.Undecide("C14-R9: no container type with both NumNodes and NumEdges")
+	}
+}
+
+// checkProjectionCountsFiltered (C14-R10): a projection hides entities of its origin through membership tests on its
+// deletion sets. Its iteration methods apply those tests element by element; its count methods must count what the
+// iteration yields. A count computed from set sizes (origin count minus the size of a deletion set) agrees only when
+// every deleted ID is an entity of the origin, which nothing ensures.
+func checkProjectionCountsFiltered(r *Run, p *packages.Package) {
+	const rule = "C14-R10-projection-count-filtered"
+	info := p.TypesInfo
+	n := 0
+	for _, tname := range p.Types.Scope().Names() {
+		methods := methodsOfType(p, tname)
+		for _, pair := range [][2]string{{"NumNodes", "EachNode"}, {"NumEdges", "EachEdge"}} {
+			num, each := methods[pair[0]], methods[pair[1]]
+			if num == nil || each == nil {
+				continue
+			}
+			filters := func(fd *ast.FuncDecl) map[string]bool {
+				out := map[string]bool{}
+				recv := recvObj(p, fd)
+				ast.Inspect(fd.Body, func(x ast.Node) bool {
+					call, ok := x.(*ast.CallExpr)
+					if !ok {
+						return true
+					}
+					sel, ok := call.Fun.(*ast.SelectorExpr)
+					if !ok || sel.Sel.Name != "Contains" {
+						return true
+					}
+					if fs, ok := ast.Unparen(sel.X).(*ast.SelectorExpr); ok {
+						if id, ok := ast.Unparen(fs.X).(*ast.Ident); ok && info.Uses[id] == recv {
+							out[fs.Sel.Name] = true
+						}
+					}
+					return true
+				})
+				return out
+			}
+			want := filters(each)
+			if len(want) == 0 {
+				continue
+			}
+			n++
+			got := filters(num)
+			// a count that delegates to the iteration inherits its filters
+			recv := recvObj(p, num)
+			delegates := stmtHasCall(num.Body, func(c *ast.CallExpr) bool {
+				sel, ok := c.Fun.(*ast.SelectorExpr)
+				if !ok || sel.Sel.Name != pair[1] {
+					return false
+				}
+				id, ok := ast.Unparen(sel.X).(*ast.Ident)
+				return ok && info.Uses[id] == recv
+			})
+			var missing []string
+			for f := range want {
+				if !got[f] && !delegates {
+					missing = append(missing, f)
+				}
+			}
+			sort.Strings(missing)
+			construct := tname + "." + pair[0]
+			if len(missing) == 0 {
+				r.Pass(rule, construct, num.Pos(), "counts with the membership tests that %s applies", pair[1])
+			} else {
+				r.Fail(rule, construct, num.Pos(), "%s.%s does not test membership in %s element by element as %s does: a count taken from set sizes is off by every deleted ID that is not an entity of the origin (and wraps around below zero)", tname, pair[0], strings.Join(missing, ", "), pair[1])
+			}
+		}
+	}
+	if n == 0 {
+		r.Undecide("C14-R10: no projection type with filtered iteration and a count found in package %s", p.Name)
 	}
 }
